@@ -216,6 +216,10 @@ def judge_wellformed(ref, bi, out, tag=""):
                 out.append(viol("wf:%s:no-contact" % kind + tag, "%s %s->%s but no base donor atom of the first residue is within 4.0 A of a %s oxygen of the second" % (kind, k1, k2, "phosphate" if kind == "basePhosphate" else "ribose")))
             elif c not in allowed:
                 out.append(viol("wf:%s:class" % kind + tag, "%s %s->%s carries class %s, the contacts present imply %s" % (kind, k1, k2, c, sorted(allowed)), c, sorted(allowed)))
+            else:
+                exact = refann.strict_class(ref, keys[k1], keys[k2], oxy)
+                if exact is not None and c != exact:
+                    out.append(viol("wf:%s:class-not-merged" % kind + tag, "%s %s->%s carries class %s; the donor atoms in contact (no other partner competes for them) imply exactly %s" % (kind, k1, k2, c, exact), c, exact))
         for k, v in per.items():
             if len(v) > 1:
                 out.append(viol("wf:%s:several-classes" % kind + tag, "residue pair %s carries %d %s entries" % (k, len(v), kind)))
